@@ -173,7 +173,14 @@ def mk_chain(chain):
     for i in range(1, len(chain)):
         p = chain[i]
         pa = _attrs(p)
-        if p["kind"] == "dict":
+        # "impl" chooses the real container class of an ancestor; the property (and the model) only know that it is
+        # an ancestor.  A DateYYYYMMDD whose parts do not form a date and a JoinedString whose text is '' are
+        # FALSY elements that nevertheless have children (seeded C16-ancestry-stops-at-falsy)
+        if p.get("impl") == "date":
+            schema = flatland.DateYYYYMMDD.using(field_schema=[schema])
+        elif p.get("impl") == "joined":
+            schema = flatland.JoinedString.using(member_schema=schema)
+        elif p["kind"] == "dict":
             schema = flatland.Dict.of(schema)
         else:
             schema = flatland.List.of(schema)
@@ -1076,7 +1083,11 @@ def rand_syn(rng):
             st["kind"] = rng.choice(["obj", "dict", "objdict"])
     # parents
     for depth in range(rng.choice([0, 1, 1, 2, 3])):
-        c["chain"].append({"kind": rng.choice(["dict", "list"]), "attrs": [["name", "p%d" % depth]]})
+        p = {"kind": rng.choice(["dict", "list"]), "attrs": [["name", "p%d" % depth]]}
+        if rng.random() < 0.3:
+            # the ancestor is a compound / joined string (often falsy: bool(u and value)) instead of a Dict / List
+            p["impl"] = "date" if p["kind"] == "dict" else "joined"
+        c["chain"].append(p)
     # translators
     if rng.random() < 0.6:
         places = []
@@ -1426,6 +1437,8 @@ class C16(Property):
             t.append("state=%s" % (st["kind"] if st else "None"))
             t.append("chain=%d" % len(case["chain"]))
             t.append("elem=" + case["chain"][0]["kind"])
+            for p_ in case["chain"][1:]:
+                t.append("ancestor=" + (p_.get("impl") or p_["kind"]))
             srcs = doc_sources(case)
             for k in used_keys(case):
                 pat = "".join("1" if k in s else "0" for s in srcs)
